@@ -233,7 +233,7 @@ theorem invPlace_step (cfg : Cfg) (s : State) (e : Event) (s' : State) (hI : Inv
     repeat' split at hs
     all_goals (first | (cases hs; done) | skip)
     rename_i _ P hP hg
-    have hnone : s.batches b = none := by simpa using hg.2.2.2
+    have hnone : s.batches b = none := by simpa using hg.2.2.2.1
     cases hs
     refine hI.of_frame pframe_calls_id.1 pframe_calls_id.2 ?_ ?_ hlogid
     · intro x X' hx
